@@ -447,7 +447,12 @@ class Ovld:
 
     def add_mixins(self, *mixins):
         self._attempt_modify()
-        mixins = [o for m in mixins if (o := to_ovld(m)) is not self]
+        mixins = [
+            o
+            for m in mixins
+            if (o := to_ovld(m)) is not self
+            and not any(o is x for x in self.mixins)
+        ]
         if mixins:
             # If this ovld or a linked child is already in use, rebuild so that
             # the new methods are visible
@@ -632,6 +637,9 @@ class Ovld:
     def unregister(self, fn):
         """Unregister a function."""
         self._attempt_modify()
+        if not any(f is fn for f in self._defns.values()):
+            # Not one of ours: nothing changes, nothing to rebuild
+            return
         built = self._invalidate()
         remaining = {sig: f for sig, f in self._defns.items() if f is not fn}
         # Handlers that share a signature keep their relative order, the most
